@@ -140,15 +140,31 @@ fn skeleton(seed: u64) -> String {
     let prelude = "struct S { int m; float4 v; int get() { return m; } };\nenum E { A, B = 5 };\ntypedef float2 T2;\nnamespace N { static const int k = 3; namespace N2 { static const float k = 1.5; } int h(int q) { return q; } }\n\
 template<typename T> T pick(T p, T q) { return p; }\nint f(int p) { return p; }\nfloat f(float p) { return p; }\nvoid g() {}\nTexture2D<float4> t;\nRWTexture2D<float4> rw;\nByteAddressBuffer buf;\nRWByteAddressBuffer rwb;\n\
 StructuredBuffer<S> sb;\nSamplerState ss;\ncbuffer CB { float4x4 m; float4 v; uint ux; }\nstatic const int a[2] = { 1, 2 };\n";
-    let body = match rng.below(26) {
+    let nm = *rng.pick(&["abs", "min", "mul", "S", "E", "A", "f", "g", "x", "t", "buf", "CB", "m", "v", "N", "k", "pick", "T2", "float4", "Texture2D", "main", "h", "Load", "this", "register", "space0", "Pipeline", "ComputeShader", "vector", "sample", "point", "in", "q"]);
+    let entry = if rng.chance(1, 2) { "\n[numthreads(1, 1, 1)] void CS() { gv; }\nPipeline P { ComputeShader = CS; }" } else { "" };
+    let body = match rng.below(40) {
+        26 => format!("struct {} {{ int q; }}; {} gq; void h() {{ {} l; }}", nm, nm, nm),
+        27 => format!("enum {} {{ Z0, Z1 }}; void h() {{ {} l = Z0; int i = (int)l; }}", nm, nm),
+        28 => format!("typedef int {}; void h() {{ {} l = 1; }}", nm, nm),
+        29 => format!("int {}(int p) {{ return p; }} void h() {{ int l = {}(1); }}", nm, nm),
+        30 => format!("namespace {} {{ static const int q = 1; }} void h() {{ int l = {}::q; }}", nm, nm),
+        31 => format!("static int {} = 1; void h() {{ int l = {}; }}", nm, nm),
+        32 => format!("void h(int {}) {{ int l = {}; }}", nm, nm),
+        33 => format!("void h() {{ int {} = 1; int l = {} + 1; }}", nm, nm),
+        34 => format!("struct Q {{ int {}; int get2() {{ return {}; }} }}; void h() {{ Q q; q.{} = 1; }}", nm, nm, nm),
+        35 => format!("template<typename {}> {} id2({} p) {{ return p; }} void h() {{ id2<int>(1); }}", nm, nm, nm),
+        36 => format!("cbuffer {} {{ int cq; }} void h() {{ int l = cq; }}", nm),
+        37 => format!("cbuffer C3 {{ int {}; }} void h() {{ int l = {}; }}", nm, nm),
+        38 => format!("enum E3 {{ {} = 2, Z9 }}; void h() {{ int l = (int){}; }}", nm, nm),
+        39 => format!("{} gv;\n{} gw[2];{}", ty, ty2, entry),
         0 => format!("void h() {{ int x = 1; int y = 2; S s; {} r = {}; }}", ty, e),
         1 => format!("void h() {{ int x = 1; int y = 2; S s; {} {} ({}); }}", e, op, e2),
         2 => format!("void h() {{ int x = 1; int y = 2; S s; {}({}); }}", un, e),
         3 => format!("void h() {{ int x = 1; int y = 2; S s; {}; }}", z),
-        4 => format!("{} gv;", ty),
-        5 => format!("{} gv = {};", ty, e),
-        6 => format!("static const {} gv = {};", ty, e),
-        7 => format!("{} gv[{}];", ty, e),
+        4 => format!("{} gv;{}", ty, entry),
+        5 => format!("{} gv = {};{}", ty, e, entry),
+        6 => format!("static const {} gv = {};{}", ty, e, entry),
+        7 => format!("{} gv[{}];{}", ty, e, entry),
         8 => format!("struct Q {{ {} m0; {} m1 : {}; }};", ty, ty2, z),
         9 => format!("struct Q {{ {}; }};", z),
         10 => format!("{} h({} p0, {} p1 = {}) {{ return {}; }}", ty, ty2, ty, e, e2),
